@@ -298,8 +298,25 @@ fn fallback_sequences(ctx: &Ctx) {
     ctx.add(&ctx.nontrivial, n);
 }
 
-pub fn check_wire(p: &Proto, mode: Mode) -> (Vec<(String, String, Config, Vec<Op>)>, u64) {
-    let ops = ops_for(p, mode);
+/// `slack`: None = comfortably large buffers; Some((kw, kr)) = every output buffer exactly as large as needed plus
+/// kw (writes; handshake writes get 16 more, which snow asks for) / kr (reads) - the backends branch on the size
+/// of the output buffer, and what one backend accepts the other must accept too
+pub fn check_wire(p: &Proto, mode: Mode, slack: Option<(isize, isize)>) -> (Vec<(String, String, Config, Vec<Op>)>, u64) {
+    let mut ops = ops_for(p, mode);
+    if let Some((kw, kr)) = slack {
+        ops = ops
+            .into_iter()
+            .map(|op| match op {
+                Op::HsWrite { side, plen, .. } => Op::HsWrite { side, plen, cap: Cap::NeedPlus(16 + kw) },
+                Op::HsRead { side, msg, .. } => Op::HsRead { side, msg, cap: Cap::NeedPlus(kr) },
+                Op::TWrite { side, plen, .. } => Op::TWrite { side, plen, cap: Cap::NeedPlus(kw) },
+                Op::TRead { side, msg, .. } => Op::TRead { side, msg, cap: Cap::NeedPlus(kr) },
+                Op::SWrite { side, nonce, plen, .. } => Op::SWrite { side, nonce, plen, cap: Cap::NeedPlus(kw) },
+                Op::SRead { side, nonce, msg, .. } => Op::SRead { side, nonce, msg, cap: Cap::NeedPlus(kr) },
+                o => o,
+            })
+            .collect();
+    }
     let mut base = Config::honest(p, 0);
     base.crypto_oracle = false;
     let reference = Exec::run(&base, &ops);
@@ -339,7 +356,7 @@ pub fn run(tier: Tier) -> i32 {
     // the whole thorough product costs ~10 s: both tiers run it
     let quick = false;
     let _ = ctx.quick();
-    ctx.set_rule("wire part: every protocol name both backends serve (25519 x {ChaChaPoly, AESGCM} x {SHA256, SHA512}; BLAKE2 / XChaChaPoly / P256 names through the fallback) x all 9 assignments of {Default, Fallback(Ring, Default), Fallback(Default, Ring)} to the two endpoints, session = handshake + transport traffic + synchronised rekeys + more traffic, stateful and stateless: identical bytes to the all-default session and every step Ok. fallback part: complete truth table of FallbackResolver over tagged stub resolvers (16 x 16 availability masks, nesting depth 2 on either side): Some iff a member provides the primitive, and the first member's; plus every sequence of three queries of one kind on the same instance over per-choice availability masks (the answer must not depend on earlier queries)");
+    ctx.set_rule("wire part: every protocol name both backends serve (25519 x {ChaChaPoly, AESGCM} x {SHA256, SHA512}; BLAKE2 / XChaChaPoly / P256 names through the fallback) x all 9 assignments of {Default, Fallback(Ring, Default), Fallback(Default, Ring)} to the two endpoints, session = handshake + transport traffic + synchronised rekeys + more traffic, stateful and stateless, with comfortably large buffers and (every 4th name) with output buffers of exactly the needed size plus {0,1,8,15,16,17} bytes: identical bytes to the all-default session and every step Ok. fallback part: complete truth table of FallbackResolver over tagged stub resolvers (16 x 16 availability masks, nesting depth 2 on either side): Some iff a member provides the primitive, and the first member's; plus every sequence of three queries of one kind on the same instance over per-choice availability masks (the answer must not depend on earlier queries)");
     fallback_table(&ctx);
     let mut names: Vec<Proto> = vec![];
     for c in [CipherAlg::ChaChaPoly, CipherAlg::AesGcm] {
@@ -358,8 +375,15 @@ pub fn run(tier: Tier) -> i32 {
     ctx.count("names", names.len() as u64);
     names.par_iter().enumerate().for_each(|(k, p)| {
         let modes: Vec<Mode> = if quick { vec![if k % 2 == 0 { Mode::TT } else { Mode::SS }] } else { vec![Mode::TT, Mode::SS] };
-        for m in modes {
-            let (v, n) = check_wire(p, m);
+        let mut runs: Vec<(Mode, Option<(isize, isize)>)> = modes.iter().map(|m| (*m, None)).collect();
+        // exactly sized and slightly larger buffers: every 4th name, five slack pairs
+        if k % 4 == 0 {
+            for sl in [(0isize, 0isize), (1, 1), (8, 15), (16, 16), (17, 5)] {
+                runs.push((if (k / 4) % 2 == 0 { Mode::TT } else { Mode::SS }, Some(sl)));
+            }
+        }
+        for (m, sl) in runs {
+            let (v, n) = check_wire(p, m, sl);
             ctx.add(&ctx.evaluations, n);
             ctx.add(&ctx.nontrivial, n);
             ctx.add(&ctx.transitions, n * 30);
